@@ -71,6 +71,12 @@ func c20Alphabet() []jsCall {
 		{Name: "arg-object-keys", JS: "Object.keys(o).join(',')", Args: []interface{}{"o", c20SharedObject}, Want: `"k"`},
 		{Name: "arg-nested-parts-changed-in-place", JS: "p[1].q = 20; p[2][0] = 6; p[1].q + p[2][0]", Args: []interface{}{"p", c20SharedNested}, Want: "26"},
 		{Name: "arg-nested-parts-read", JS: "p[0] + '/' + p[1].q + '/' + p[2][0]", Args: []interface{}{"p", c20SharedNested}, Want: `"1/2/5"`},
+		// declarations at the top level of a script (not assignments to globals): gone with the call
+		{Name: "top-level-const", JS: "const kk = 2; kk * a", Args: []interface{}{"a", int64(3)}, Want: "6"},
+		{Name: "top-level-let-and-class", JS: "let ll = a; class CC { v() { return ll + 1 } }; new CC().v()", Args: []interface{}{"a", int64(1)}, Want: "2"},
+		{Name: "top-level-var-and-function", JS: "var vv = (typeof vv === 'undefined') ? 1 : vv + 1; function ff() { return vv }; ff()", Want: "1"},
+		{Name: "typeof-declared-elsewhere", JS: "[typeof kk, typeof ll, typeof CC, typeof vv, typeof ff].join()", Want: `"undefined,undefined,undefined,undefined,undefined"`},
+		{Name: "arg-named-like-a-const-elsewhere", JS: "kk", Args: []interface{}{"kk", "argval"}, Want: `"argval"`},
 		{Name: "newrec", Ctx: "newrec"},
 		{Name: "ctx-rec", JS: "JSON.parse(_node).v", Ctx: "rec"},
 		{Name: "ctx-rec-with-arg", JS: "JSON.parse(_node).v + a", Args: []interface{}{"a", "!"}, Ctx: "rec"},
